@@ -95,7 +95,7 @@ def run(ctx):
                 ctx.count("accounting:small-scope:literal-word-as-name"); continue
             # a token where a bracket group is expected is consumed as an EMPTY group (F-C08-6): the printed statement shows a `()` the input does not have
             pr_ = printed_ss.get((d, t), "")
-            if "()" not in t and "%28;%29;" in pr_:
+            if pr_.count("%28;%29;") > "".join(t.split()).count("()"):
                 pfam.report(ctx, "word-before-bracket-group", {"kind": "input", "entry": "parse_statements + source", "dialect": d, "input": t, "observed": a[:400],
                                                                "oracle": "c08: every identifier and literal of the input appears the same number of times in the printed statement", "how_found": "stream " + kind})
                 continue
